@@ -3400,20 +3400,44 @@ def _reached_views(repo, fi, vkeys, depth=0, seen=None):
 
 
 def _strings_of(repo, fi):
-    """Every text the function can use as a key: its string constants (also those inside tuples / lists), the module- / class-
-    level constants it names, and the keyword names of the ``dict(..)`` / ``.update(..)`` calls it makes."""
+    """Every text the function can use as a key (a liberal superset): its string constants (whole, and the identifiers inside
+    them: ``namedtuple('Row', 'key value')``), the keyword names of the calls it makes, the module- / class-level
+    constants it names (the texts inside the expressions that define them), and the fields of the classes of the tree it
+    names (class attributes, annotated fields, ``self.<field>`` stores)."""
+    import re
     out = set()
+
+    def texts(expr):
+        for n in ast.walk(expr):
+            if isinstance(n, ast.Constant) and isinstance(n.value, str):
+                out.add(n.value)
+                out.update(re.findall(r'[A-Za-z_][A-Za-z_0-9]*', n.value) if len(n.value) < 200 else [])
+            elif isinstance(n, ast.Call):
+                out.update(k.arg for k in n.keywords if k.arg is not None)
+    texts(fi.node)
+    loc = _local_names(fi)
     for n in ast.walk(fi.node):
-        if isinstance(n, ast.Constant) and isinstance(n.value, str):
-            out.add(n.value)
-        elif isinstance(n, (ast.Name, ast.Attribute)) and isinstance(n.ctx, ast.Load):
-            v = _fold_any(repo, fi, n) if not (isinstance(n, ast.Name) and n.id in _local_names(fi)) else None
-            if isinstance(v, str):
-                out.add(v)
-            elif isinstance(v, (tuple, list)):
-                out |= set(x for x in v if isinstance(x, str))
-        elif isinstance(n, ast.Call) and (call_name(n) == 'dict' or call_tail(n) in ('update', 'setdefault')):
-            out |= set(k.arg for k in n.keywords if k.arg is not None)
+        if not (isinstance(n, ast.Name) and isinstance(n.ctx, ast.Load)) or n.id in loc:
+            continue
+        try:
+            kind, m, obj = repo.resolve(fi.mod, n.id)
+        except AnalysisError:
+            continue
+        if m is None or m.external:
+            continue
+        if kind == 'value':
+            for v in obj:
+                if isinstance(v, ast.AST):
+                    texts(v)
+        elif kind == 'class':
+            for c in [x for x in repo.mro(obj) if not isinstance(x, str) and not x.mod.external]:
+                out.update(c.class_attrs)
+                for st in c.node.body:
+                    if isinstance(st, ast.AnnAssign) and isinstance(st.target, ast.Name):
+                        out.add(st.target.id)
+                for mth in c.methods.values():
+                    out.update(x.attr for x in ast.walk(mth.node) if isinstance(x, ast.Attribute) and isinstance(x.ctx, ast.Store))
+                    texts(mth.node)
     return out
 
 
